@@ -69,7 +69,7 @@ type region struct {
 // encoderRegions: copy(buf[a:], X) and append(lit, X...) regions.
 func encoderRegions(fn *ssa.Function) []region {
 	var out []region
-	for _, in := range instrsOf(fn) {
+	for _, in := range instrsDeep(fn) {
 		c, ok := in.(*ssa.Call)
 		if !ok {
 			continue
@@ -143,7 +143,7 @@ func checkCodecPair(c *Ctx, m *Module, cp codecPair) {
 			byPos[w.Pos.String()] = w
 		}
 	}
-	input := ssa.Value(dec.Params[0])
+	input := strip(dec.Params[0])
 	nInt := 0
 	for _, root := range decodedRoots(dec) {
 		ls := lanesOf(root, 0)
